@@ -335,6 +335,10 @@ def run_case(case):
                 out.append(Disc('builtin.introspect', _desc(rep)))
             if builtin == 'managed' and exported and (d['type'] != 2 or d['body_sig'] != 'a{oa{sa{sv}}}'):
                 out.append(Disc('builtin.managed', _desc(rep)))
+            if builtin == 'managed' and not exported and not (
+                    d['type'] == 3 and d['fields'].get(4) == 'org.freedesktop.DBus.Error.UnknownObject'):
+                # the object manager speaks for exported objects only: elsewhere the answer is UnknownObject
+                out.append(Disc('builtin.managed-on-unexported-path', '%s: %s' % (where, _desc(rep))))
             continue
         if not dispatched:
             if not exported:
@@ -485,6 +489,7 @@ def gen_case(draw, tier):
             call.update(iface='org.freedesktop.DBus.Introspectable', member='Introspect', sig='')
         elif mode == 'managed':
             call.update(iface='org.freedesktop.DBus.ObjectManager', member='GetManagedObjects', sig='')
+            call['path'] = draw(st.sampled_from([path, path, '/nope', '/obj/child']))
         elif mode == 'std-name-no-iface':
             # a standard member name without the interface that makes it the standard member: whatever the object
             # itself binds to that name (or nothing) must answer
